@@ -319,7 +319,11 @@ class Ctx:
             "coverage": self.cov, "assumptions": self.assumptions,
             "wall_s": round(time.time() - self.t0, 2), "violations": len(self.violations),
         }
-        with open(os.path.join(ROOT, "evidence", self.prop + ".json"), "w") as f:
+        evdir = os.path.join(ROOT, "evidence")
+        if REPO != "/repo":               # a run against a scratch tree (mutant testing) must not overwrite the evidence
+            evdir = os.path.join(BUILD, "evidence")
+            os.makedirs(evdir, exist_ok=True)
+        with open(os.path.join(evdir, self.prop + ".json"), "w") as f:
             json.dump(ev, f, indent=1, sort_keys=True)
             f.write("\n")
         for w in self.known_lines:
